@@ -1,11 +1,12 @@
 ------------------------------- MODULE EncScen -------------------------------
 (* Scenario space of C18: option vectors x the tamper kinds of Encryption.tla  *)
-(* (plus key faults and truncation) x target page x access path.               *)
+(* (plus key faults and truncation) x target page x access path x whether the   *)
+(* file is the second one of a writer reused through Reset.                    *)
 EXTENDS Integers, TLC, Json
 VARIABLE s
 Space == [mode : {"encfooter", "plainfooter"}, keys : {"footer", "percol"}, ver : {1, 2}, codec : {"none", "snappy"},
           dict : BOOLEAN, tamper : {"none", "flip", "swap", "otherfile", "othercol", "otherrg", "wrongkey", "nokey", "truncate"},
-          at : 0..2, path : {"seq", "seek", "readseek"}, index : BOOLEAN, fid : {"explicit", "default"}]
+          at : 0..2, path : {"seq", "seek", "readseek"}, index : BOOLEAN, fid : {"explicit", "default"}, reuse : BOOLEAN]
 Init == s \in Space
 Next == UNCHANGED s
 Emit == PrintT(<<"SCENARIO", ToJson(s)>>)
